@@ -249,7 +249,9 @@ pub fn system_family(tier: Tier, divrem: bool) -> Vec<SysSpec> {
     }
     out.extend(unnamed_variants(&out, n_hand, 7));
     let offs = offset_variants(&out, n_hand, 9);
+    let revs = revsyms_variants(&out, n_hand, 5);
     out.extend(offs);
+    out.extend(revs);
     out
 }
 
